@@ -291,8 +291,17 @@ class Runtime:
             return sint_ite(g, a, b)
         if isinstance(a, (int, SInt, SNum)) and isinstance(b, (int, SInt, SNum)):
             return num_ite(g, a.to_snum() if isinstance(a, SInt) else a, b.to_snum() if isinstance(b, SInt) else b)
-        if type(a) is type(b) and isinstance(a, (str, bytes, tuple)) and a == b:
+        if type(a) is type(b) and isinstance(a, (str, bytes)) and a == b:
             return a
+        if isinstance(a, tuple) and isinstance(b, tuple) and not any(is_sym(x) for x in a + b) and a == b:
+            return a
+        if isinstance(a, str) and isinstance(b, str):
+            from . import shadow
+            return shadow.placeholder(('ite', g, a, b))          # symbolic text: resolved by the readers in /verif
+        if isinstance(a, (bytes, SBytes)) and isinstance(b, (bytes, SBytes)) and len(a) == len(b):
+            return SBytes([self.merge(g, x, y, name) for x, y in zip(list(a), list(b))])
+        if isinstance(a, tuple) and isinstance(b, tuple) and len(a) == len(b):
+            return tuple(self.merge(g, x, y, name) for x, y in zip(a, b))
         if a is None and b is None:
             return None
         raise MergeAbort(self.current_site(), f'cannot merge {name}: {type(a).__name__} / {type(b).__name__}')
@@ -497,6 +506,8 @@ class Runtime:
             key = key.materialise()
         if isinstance(key, SBool):
             key = key.as_sint()
+        if isinstance(key, tuple) and isinstance(obj, dict) and any(is_sym(e) for e in key):
+            return self._select_dict_tuple(obj, key)
         if isinstance(key, SInt):
             if isinstance(obj, (tuple, list, bytes)) and obj and all(isc(e) and e >= 0 for e in obj):
                 if len(key.bits) <= 8 and len(obj) > 2:
@@ -514,12 +525,24 @@ class Runtime:
             raise Unsupported(f'symbolic subscript into {type(obj).__name__}')
         return obj[key]
 
+    def _require(self, cond, what, exc):
+        """a lookup that Python would fail on if `cond` were false: recorded as a side condition of the path (its violation
+        is reported with a model and replayed) instead of forking at every lookup"""
+        if cond is True:
+            return
+        if cond is False:
+            raise exc
+        ex = _ex()
+        if ex is None:
+            if not bool(cond):
+                raise exc
+            return
+        ex.side_condition(what, cond.term)
+
     def _select_seq(self, obj, key):
         n = len(obj)
         items = list(obj)
-        inb = key < n
-        if not bool(inb):                    # forks; infeasible polarity is pruned
-            raise IndexError('index out of range')
+        self._require(key < n, 'index-in-range', IndexError('index out of range'))
         g = None
         res = items[-1]
         kw = key.word(max(len(key.bits), max(n - 1, 1).bit_length()))
@@ -532,8 +555,7 @@ class Runtime:
         member = False
         for k in ks:
             member = bor_b(member, key == k)
-        if not bool(member):
-            raise KeyError(key)
+        self._require(member, 'dict-key-present', KeyError(key))
         res = obj[ks[-1]]
         for k in reversed(ks[:-1]):
             c = key == k
@@ -547,6 +569,42 @@ class Runtime:
                 # values are containers etc.: concretise the key instead
                 return obj[concretize(key if isinstance(key, SNum) else key.to_snum())]
         return res
+
+    def _select_dict_tuple(self, obj, key):
+        """dict keyed by tuples, looked up with a tuple holding symbolic elements"""
+        cands = [k for k in obj if isinstance(k, tuple) and len(k) == len(key)]
+        conds = []
+        for k in cands:
+            c = True
+            for a, b in zip(key, k):
+                c = band_b(c, a == b)
+            conds.append(c)
+        member = False
+        for c in conds:
+            member = bor_b(member, c)
+        self._require(member, 'dict-key-present', KeyError(key))
+        live = [(c, k) for c, k in zip(conds, cands) if c is not False]
+        res = obj[live[-1][1]]
+        for c, k in reversed(live[:-1]):
+            if c is True:
+                res = obj[k]
+            else:
+                res = self.merge(c.term, obj[k], res, 'select')
+        return res
+
+    def join(self, sep, it):
+        """sep.join(it) where items may be symbolic bytes"""
+        if isinstance(sep, (bytes, bytearray)):
+            items = list(it)
+            if any(isinstance(x, (SBytes, SBA)) for x in items):
+                out = []
+                for i, x in enumerate(items):
+                    if i and sep:
+                        out += list(sep)
+                    out += list(x)
+                return SBytes(out)
+            return sep.join(items)
+        return sep.join(it)
 
     # ---- nested defs / pure calls
     def expose(self, qual, fn):
